@@ -169,6 +169,7 @@ type GenOpts struct {
 	NoDotted    bool
 	NoSubQuery  bool
 	SelfLinks   bool            // sub-queries only over link sets that point back at the same store (C20)
+	SubSort     []string        // when set, sub-queries sometimes carry a "sort by" over these symbols
 	Boost       map[string]int  // multiplies the weight of an atom kind (scalar null boolsym const setfn count isempty subcount subempty)
 	Exclude     map[string]bool // atom classes excluded by construction (known findings); counted by the caller
 	Classes     *[]string
@@ -525,6 +526,17 @@ func GenAtom(t *rapid.T, l string, kind string, depth int, o *GenOpts) *Expr {
 		}
 		ls := pick(t, l+"_link", links)
 		sub := GenExpr(t, l+"_sub", ls.decl, depth-1, &GenOpts{NoSubQuery: true, NoMaps: o.NoMaps, NoDotted: o.NoDotted, Exclude: o.Exclude, Classes: o.Classes, ExcludedHit: o.ExcludedHit, Boost: o.Boost})
+		var subSort []SortKey
+		if len(o.SubSort) > 0 && chance(t, l+"_subsort", 40) {
+			n := rapid.IntRange(1, 2).Draw(t, l+"_nsubsort")
+			for i := 0; i < n; i++ {
+				k := SortKey{Sym: pick(t, fmt.Sprintf("%s_subsort%d", l, i), o.SubSort)}
+				if chance(t, fmt.Sprintf("%s_subsortdesc%d", l, i), 40) {
+					k.Dir, k.Desc = "desc", true
+				}
+				subSort = append(subSort, k)
+			}
+		}
 		if which == "subcount" {
 			if o.Exclude["count-subquery"] {
 				if o.ExcludedHit != nil {
@@ -534,10 +546,10 @@ func GenAtom(t *rapid.T, l string, kind string, depth int, o *GenOpts) *Expr {
 				return &Expr{Op: "isempty", L: &LHS{Sym: ls.name, Sub: sub}}
 			}
 			o.label("sub-query:count")
-			return genCountAtom(t, l, &LHS{Fn: "count", Sym: ls.name, Sub: sub}, o)
+			return genCountAtom(t, l, &LHS{Fn: "count", Sym: ls.name, Sub: sub, SubSort: subSort}, o)
 		}
 		o.label("sub-query:isEmpty")
-		return &Expr{Op: "isempty", L: &LHS{Sym: ls.name, Sub: sub}}
+		return &Expr{Op: "isempty", L: &LHS{Sym: ls.name, Sub: sub, SubSort: subSort}}
 	}
 	panic("no atom kind")
 }
